@@ -1516,7 +1516,11 @@ class Interp:
                         return False
                 return True
             cands = [c_ for c_ in cands if fits(c_)] or cands
-        c = cands[0]
+        return self._construct_with(cls, cands[0], argvals, obj)
+
+    def _construct_with(self, cls, c, argvals, obj):
+        """Run one given constructor (initialisers, default member initialisers, body) on obj."""
+        rec = self.idx.record(cls)
         env = {'this': obj, 'locals': {}}
         for prm, v in zip(c.params, argvals):
             if '&' not in qt(prm):
@@ -1527,6 +1531,20 @@ class Interp:
             env['locals'][prm['id']] = v
         for ini in c.inits:
             ch = children(ini)
+            if ini.get('delegatingInit'):
+                # a delegating constructor: run the target constructor on the same object, then this body
+                ce = ch[0] if ch else None
+                while ce is not None and ce.get('kind') != 'CXXConstructExpr' and children(ce):
+                    ce = children(ce)[0]
+                if ce is None:
+                    raise AnalysisBroken('delegating constructor of %s without a target' % cls)
+                dargs = [self.expr(a, env) for a in children(ce) if a['kind'] != 'CXXDefaultArgExpr']
+                ct = ((ce.get('ctorType') or {}).get('qualType') or '').strip()
+                tgt = [c2 for c2 in rec.ctors if c2 is not c and c2.type.strip() == ct]
+                if len(tgt) != 1:
+                    raise AnalysisBroken('delegating constructor of %s: target not resolved' % cls)
+                self._construct_with(cls, tgt[0], dargs, obj)
+                continue
             if ini.get('baseInit'):
                 bq = self.idx._resolve_record_name(ini['baseInit'].get('qualType', '').replace('class ', '').replace('struct ', ''), cls)
                 if bq:
